@@ -236,6 +236,37 @@ def do_attrs(tree):
             n.value = first + '_rn'
 
 
+def do_params(tree):
+  """Renames the parameters of private module-level functions (`_f(a, b)` -> `_f(a_rn, b_rn)`), keyword call sites updated."""
+  priv = {}
+  for st in tree.body:
+    if isinstance(st, ast.FunctionDef) and st.name.startswith('_') and not st.name.startswith('__') and not st.decorator_list \
+        and not st.args.vararg and not st.args.kwarg:
+      ps = [a.arg for a in st.args.posonlyargs + st.args.args + st.args.kwonlyargs]
+      glob = {x for g in ast.walk(st) if isinstance(g, (ast.Global, ast.Nonlocal)) for x in g.names}
+      if set(ps) & glob:
+        continue
+      priv[st.name] = (st, ps)
+  for name, (fn, ps) in priv.items():
+    mapping = {p_: p_ + '_rn' for p_ in ps}
+    for a in fn.args.posonlyargs + fn.args.args + fn.args.kwonlyargs:
+      a.arg = mapping[a.arg]
+    for st in fn.body:
+      rename_in(st, mapping)
+    # nested functions see the parameters as free variables
+    for n in ast.walk(fn):
+      if isinstance(n, FN) and n is not fn:
+        own = {a.arg for a in ast.walk(n.args) if isinstance(a, ast.arg)} | {x.id for x in ast.walk(n) if isinstance(x, ast.Name) and isinstance(x.ctx, ast.Store)}
+        for x in ast.walk(n):
+          if isinstance(x, ast.Name) and x.id in mapping and x.id not in own:
+            x.id = mapping[x.id]
+  for n in ast.walk(tree):
+    if isinstance(n, ast.Call) and isinstance(n.func, ast.Name) and n.func.id in priv:
+      for k in n.keywords:
+        if k.arg in priv[n.func.id][1]:
+          k.arg = k.arg + '_rn'
+
+
 def main():
   mode = sys.argv[1]
   files = sys.argv[2:] or CORE
@@ -250,6 +281,7 @@ def main():
       elif mode == 'swapif': do_swapif(tree)
       elif mode == 'fstring': do_fstring(tree)
       elif mode == 'hints': do_hints(tree)
+      elif mode == 'params': do_params(tree)
       elif mode == 'attrs': do_attrs(tree)
       elif mode == 'annassign': do_annassign(tree)
       elif mode == 'guard': do_guard(tree)
